@@ -10,7 +10,7 @@ import (
 	"github.com/mithrandie/csvq/lib/value"
 )
 
-var verifC18Alphabet = []byte{'\'', '"', '`', '\\', '@', '-', '/', '*', '(', ')', '1', 'a', ' ', '.', ';', '#', '$', '%', 'e', '\n', ',', '=', '<', '!', ':', '|', '?', '+', 'x', '0'}
+var verifC18Alphabet = []byte{'\'', '"', '`', '\\', '@', '-', '/', '*', '(', ')', '1', 'a', ' ', '.', ';', '#', '$', '%', 'e', '\n', ',', '=', '<', '!', ':', '|', '?', '+', 'x', '0', '\r', '\t'}
 
 var verifC18Templates = []struct{ pre, post string }{
 	{"", ""},
@@ -48,7 +48,7 @@ func VerifC18Totality() {
 		if ok {
 			lines := 1
 			for i := 0; i < len(src); i++ {
-				if src[i] == '\n' {
+				if src[i] == '\n' || src[i] == '\r' {
 					lines++
 				}
 			}
@@ -90,6 +90,39 @@ var verifC18Queries = []string{
 	"select @v, @@flag, @%%env, @#info, 1.5e3, true, null, unknown, %s || 'b', substring(%s from 2 for 3) from dual",
 	"select %s from t for update",
 	"select integer(%s), json_value('a', %s), if(a, %s, 'n') from `file name.csv` as f",
+	"select a from t order by a asc nulls first, b desc, c nulls last, d desc nulls first",
+	"select distinct a, b from t order by 1 limit 10 percent with ties",
+	"select a from t order by a offset 2 rows fetch next 3 rows only",
+	"select a is not null, a is not true, a not like %s, a not in (1, 2), a not between 1 and 2, a <> 1, a != 2, a <= 3, a == 4 from t",
+	"select sum(a) over (order by b rows between unbounded preceding and 1 following), lag(a, 1, 0) over (partition by c), ntile(2) over (order by a desc nulls last) from t",
+	"select a, b into @x, @y from t where exists (select 1 from u where u.a = t.a order by b desc nulls first)",
+	"select median(distinct a), listagg(a, %s) within group (order by b desc nulls last), userfn(a, %s) from t as t1, u as u1 where t1.a = u1.a",
+	"select %s from stdin",
+}
+
+// The canonical printed form of each query above, written by hand from the source: the same tokens
+// in the same order, keywords and function names in upper case, identifiers as written.
+var verifC18Canon = []string{
+	"SELECT %s",
+	"SELECT %s AS x, 1 + 2 * 3, -(4 - 5) %% 2",
+	"SELECT a, b FROM t WHERE a = %s AND (b < 1 OR NOT b >= 2) ORDER BY a DESC NULLS LAST LIMIT 3 OFFSET 1",
+	"SELECT COUNT(*), LISTAGG(DISTINCT a, %s) WITHIN GROUP (ORDER BY a) FROM t GROUP BY b HAVING COUNT(*) > 1",
+	"SELECT CASE WHEN a IS NULL THEN %s WHEN a LIKE 'x%%' THEN 'y' ELSE b END, a BETWEEN 1 AND 2, a IN (1, 2, %s) FROM t",
+	"SELECT RANK() OVER (PARTITION BY a ORDER BY b), COUNT(a) OVER (PARTITION BY a ORDER BY b ROWS BETWEEN 1 PRECEDING AND CURRENT ROW), FIRST_VALUE(a) IGNORE NULLS OVER () FROM t",
+	"SELECT * FROM t INNER JOIN u ON t.a = u.a LEFT JOIN v USING (a) CROSS JOIN w NATURAL JOIN z",
+	"WITH c (x) AS (SELECT %s) SELECT x FROM c UNION ALL SELECT x FROM c INTERSECT SELECT 1 EXCEPT SELECT 2",
+	"SELECT (SELECT MAX(a) FROM t), EXISTS (SELECT 1 FROM t), a = ANY (SELECT a FROM u), (a, b) IN ((1, %s)) FROM t",
+	"SELECT @v, @@FLAG, @%%env, @#INFO, 1.5e3, TRUE, NULL, UNKNOWN, %s || 'b', SUBSTRING(%s FROM 2 FOR 3) FROM DUAL",
+	"SELECT %s FROM t FOR UPDATE",
+	"SELECT INTEGER(%s), JSON_VALUE('a', %s), IF(a, %s, 'n') FROM `file name.csv` AS f",
+	"SELECT a FROM t ORDER BY a ASC NULLS FIRST, b DESC, c NULLS LAST, d DESC NULLS FIRST",
+	"SELECT DISTINCT a, b FROM t ORDER BY 1 LIMIT 10 PERCENT WITH TIES",
+	"SELECT a FROM t ORDER BY a OFFSET 2 ROWS FETCH NEXT 3 ROWS ONLY",
+	"SELECT a IS NOT NULL, a IS NOT TRUE, a NOT LIKE %s, a NOT IN (1, 2), a NOT BETWEEN 1 AND 2, a <> 1, a != 2, a <= 3, a == 4 FROM t",
+	"SELECT SUM(a) OVER (ORDER BY b ROWS BETWEEN UNBOUNDED PRECEDING AND 1 FOLLOWING), LAG(a, 1, 0) OVER (PARTITION BY c), NTILE(2) OVER (ORDER BY a DESC NULLS LAST) FROM t",
+	"SELECT a, b INTO @x, @y FROM t WHERE EXISTS (SELECT 1 FROM u WHERE u.a = t.a ORDER BY b DESC NULLS FIRST)",
+	"SELECT MEDIAN(DISTINCT a), LISTAGG(a, %s) WITHIN GROUP (ORDER BY b DESC NULLS LAST), USERFN(a, %s) FROM t AS t1, u AS u1 WHERE t1.a = u1.a",
+	"SELECT %s FROM STDIN",
 }
 
 func verifFmt1(q, lit string) string {
@@ -119,6 +152,9 @@ func verifFmt1(q, lit string) string {
 func VerifC18PrintParse() {
 	qi := verifChoice("query", len(verifC18Queries))
 	n := verifChoice("len", verifBound(3, 4))
+	if verifFmt1(verifC18Queries[qi], "") == verifC18Queries[qi] {
+		verifAssume(n == 0) // no literal to splice in
+	}
 	text := verifC18Text("c", n)
 	lit := value.NewString(text).String() // csvq's own quoting of a string literal
 	src := verifFmt1(verifC18Queries[qi], lit)
@@ -135,6 +171,7 @@ func VerifC18PrintParse() {
 	if e2 != nil || len(again) != 1 {
 		return
 	}
+	verifAssert("the printed query has exactly the tokens of the source", p1 == verifFmt1(verifC18Canon[qi], lit))
 	q2, ok2 := again[0].(parser.SelectQuery)
 	verifAssert("the printed query is a select query", ok2)
 	verifAssert("printing is stable", q2.String() == p1)
